@@ -310,14 +310,15 @@ func (h *harness) textStream(b *batcher) {
 				run.Count("violation-not-shrunk:" + f.kind + ":" + f.class)
 				continue
 			}
-			run.Violate(f.kind, f.class+": "+f.what, "", f.kind == "correspondence", shrinkText(h, c, f))
+			sc, sf := shrinkText(h, c, f)
+			run.Violate(sf.kind, sf.class+": "+sf.what, "", sf.kind == "correspondence", sc)
 		}
 	}
 }
 
 // shrinkText drops bytes (whole runes) while the text-level comparison fails in the same way.
-func shrinkText(h *harness, c Case, f *failure) Case {
-	cur := c
+func shrinkText(h *harness, c Case, f *failure) (Case, *failure) {
+	cur, curF := c, f
 	for rounds := 0; rounds < 40; rounds++ {
 		src := cur.src()
 		changed := false
@@ -326,7 +327,7 @@ func shrinkText(h *harness, c Case, f *failure) Case {
 			cand := append(append([]byte{}, src[:i]...), src[i+size:]...)
 			cc := mkCase(cur.Mode, cand, "", cur.Stream)
 			if f2 := h.evalText(cc); f2 != nil && f2.kind == f.kind && f2.class == f.class {
-				cur, src, changed = cc, cand, true
+				cur, curF, src, changed = cc, f2, cand, true
 				continue
 			}
 			i += size
@@ -335,5 +336,5 @@ func shrinkText(h *harness, c Case, f *failure) Case {
 			break
 		}
 	}
-	return cur
+	return cur, curF
 }
